@@ -9,6 +9,7 @@ package store
 import (
 	"context"
 	"fmt"
+	"math"
 	"math/rand"
 	"os"
 	"path/filepath"
@@ -205,6 +206,72 @@ type vfc10Req struct {
 	mint, maxt int64
 	skip       bool
 	want       map[string]*vfc10Series
+	session    string // range pattern of the selector session and the position in it
+	later      bool   // the same selectors were already issued with another range
+}
+
+// vfc10SessionRanges draws the ranges of one selector session: the same selectors are issued with
+// every range in order, so index caches filled under one range are read under another.
+func vfc10SessionRanges(rng *rand.Rand, fx *vfc07Fixture) (string, [][2]int64) {
+	slotTime := func() int64 {
+		t := fx.tmin + rng.Int63n(fx.tmax-fx.tmin+1)
+		return t - t%vfc07Step
+	}
+	narrow := func() [2]int64 {
+		x := slotTime()
+		if rng.Intn(3) == 0 {
+			x = fx.edges[rng.Intn(len(fx.edges))]
+		}
+		return [2]int64{x, x + []int64{0, vfc07Step, 3 * vfc07Step, 8 * vfc07Step}[rng.Intn(4)]}
+	}
+	wide := func() [2]int64 {
+		switch rng.Intn(3) {
+		case 0:
+			return [2]int64{math.MinInt64, math.MaxInt64}
+		case 1:
+			return [2]int64{fx.tmin - int64(rng.Intn(3))*vfc07Step, fx.tmax + int64(rng.Intn(3))*vfc07Step}
+		default:
+			return [2]int64{fx.tmin, fx.tmax}
+		}
+	}
+	free := func() [2]int64 { a, b := fx.vfc07Range(rng); return [2]int64{a, b} }
+	switch rng.Intn(6) {
+	case 0:
+		return "single", [][2]int64{free()}
+	case 1:
+		out := [][2]int64{narrow()}
+		if rng.Intn(2) == 0 {
+			out = append(out, narrow())
+		}
+		return "narrow-then-wide", append(out, wide())
+	case 2:
+		out := [][2]int64{wide(), narrow()}
+		if rng.Intn(2) == 0 {
+			out = append(out, narrow())
+		}
+		return "wide-then-narrow", out
+	case 3:
+		var out [][2]int64
+		for i := 0; i < 2+rng.Intn(3); i++ {
+			out = append(out, narrow())
+		}
+		return "disjoint-windows", out
+	case 4: // nested ranges growing from one point to everything
+		x := slotTime()
+		out := [][2]int64{{x, x}}
+		for _, d := range []int64{2, 10} {
+			if rng.Intn(3) != 0 {
+				out = append(out, [2]int64{x - d*vfc07Step, x + d*vfc07Step})
+			}
+		}
+		return "growing", append(out, wide())
+	default:
+		var out [][2]int64
+		for i := 0; i < 2+rng.Intn(3); i++ {
+			out = append(out, free())
+		}
+		return "free-ranges", out
+	}
 }
 
 // vfc10Tune sets the request-time knobs of the store (they are read at the start of every call).
@@ -225,8 +292,9 @@ func TestVF_C10(t *testing.T) {
 	defer r.Finish()
 	r.Rule("case = one generated fixture (1..3 raw TSDB blocks: sequential / replica / half-overlapping in time, 1..6 chunks per series, dense/late/early/gappy/single-sample series, ~10% native-histogram series, " +
 		"1..many segment files, stored labels colliding with external labels) served by 3 BucketStores (index cache none / large / tiny-evicting; header sampling 1,2,32; small series/chunk size estimates forcing refetch; pooled chunk bytes; partitioner gap 1..default) " +
-		"x generated requests (1..4 matchers of 20 shapes; 30% constrain several different labels, 30% put 2..3 matchers on one label, rest free incl. external and absent names; closed ranges at chunk/block edges; SkipChunks 15%). Every request is issued twice in a row on every store with freshly drawn " +
-		"lazy-postings settings and series batch size (1,3,10000), and 30% of the requests are re-issued later (cache history). " +
+		"x selector sessions: one generated selector set (1..4 matchers of 20 shapes; 40% constrain several different labels, 30% put 2..3 matchers on one label, rest free incl. external and absent names) is issued with a sequence of 1..4 closed ranges " +
+		"(patterns: single, narrow-then-wide, wide-then-narrow, disjoint windows, nested growing, free ranges at chunk/block edges; SkipChunks 15%), so caches filled under one range are read under another; 20% of the requests re-issue an earlier request verbatim. " +
+		"Every request is issued twice in a row on every store with freshly drawn lazy-postings settings and series batch size (1,3,10000). " +
 		"oracle: flattened answer == union over blocks of Prometheus NewBlockChunkQuerier(block,mint,maxt).Select(DisableTrimming) with external labels applied, chunks compared as sets of (mint,maxt,encoding,bytes). " +
 		"evaluation = one store answer compared; distinct/non-trivial = (fixture, request) whose reference answer has at least one series")
 	nFix := r.N(8, 70)
@@ -269,27 +337,37 @@ func vfc10RunFixture(t *testing.T, r *vfkit.Run, c int, rng *rand.Rand, nReq int
 	}
 	r.Sample(map[string]any{"case": c, "blocks": vfc07DescribeFixture(fx), "stored_names": fx.u.names, "stores": []string{cfgs[0].String(), cfgs[1].String(), cfgs[2].String()}})
 
-	var history []vfc10Req
+	var history, pending []vfc10Req
 	for q := 0; q < nReq; q++ {
 		var rq vfc10Req
-		replay := len(history) > 0 && rng.Intn(10) < 3
-		if replay {
+		replay := false
+		switch {
+		case len(pending) > 0:
+			rq, pending = pending[0], pending[1:]
+			history = append(history, rq)
+		case len(history) > 0 && rng.Intn(10) < 2:
 			rq = history[rng.Intn(len(history))]
-		} else {
-			if k := rng.Intn(10); k < 3 {
-				rq.ms = vfc07GenMatchersMulti(rng, fx.u, 0.05)
-			} else if k < 6 {
-				rq.ms = vfc07GenMatchersSameName(rng, fx.u)
+			replay = true
+		default:
+			// a selector session: one selector set, a sequence of requests whose ranges vary
+			var ms []vfc07M
+			if k := rng.Intn(10); k < 4 {
+				ms = vfc07GenMatchersMulti(rng, fx.u, 0.05)
+			} else if k < 7 {
+				ms = vfc07GenMatchersSameName(rng, fx.u)
 			} else {
-				rq.ms = vfc07GenMatchers(rng, fx.u, 0.1)
+				ms = vfc07GenMatchers(rng, fx.u, 0.1)
 			}
-			rq.mint, rq.maxt = fx.vfc07Range(rng)
-			rq.skip = rng.Intn(100) < 15
-			want, err := vfc10Reference(refs, vfc07Proms(rq.ms), rq.mint, rq.maxt)
-			if err != nil {
-				vfc07Setup("reference read failed: %v", err)
+			pattern, ranges := vfc10SessionRanges(rng, fx)
+			for i, rg := range ranges {
+				want, err := vfc10Reference(refs, vfc07Proms(ms), rg[0], rg[1])
+				if err != nil {
+					vfc07Setup("reference read failed: %v", err)
+				}
+				pending = append(pending, vfc10Req{ms: ms, mint: rg[0], maxt: rg[1], skip: rng.Intn(100) < 15, want: want, session: fmt.Sprintf("%s#%d/%d", pattern, i+1, len(ranges)), later: i > 0})
 			}
-			rq.want = want
+			r.Count("selector_sessions_"+pattern, 1)
+			rq, pending = pending[0], pending[1:]
 			history = append(history, rq)
 		}
 		if len(rq.want) > 0 {
@@ -316,9 +394,15 @@ func vfc10RunFixture(t *testing.T, r *vfkit.Run, c int, rng *rand.Rand, nReq int
 				if replay || rep > 0 {
 					r.Count("answers_on_warm_history", 1)
 				}
+				if rq.later && !replay {
+					r.Count("answers_after_same_selectors_with_other_range", 1)
+					if lazyHit {
+						r.Count("lazy_answers_after_same_selectors_with_other_range", 1)
+					}
+				}
 				witness := func(extra map[string]any) map[string]any {
 					m := map[string]any{"case": c, "matchers": vfc07MatchersString(rq.ms), "mint": rq.mint, "maxt": rq.maxt, "skip_chunks": rq.skip,
-						"store": cfgs[si].String(), "request_time_config": tune, "repeat": rep, "reissued_later": replay, "lazy_postings_used": lazyHit,
+						"store": cfgs[si].String(), "request_time_config": tune, "repeat": rep, "reissued_later": replay, "selector_session": rq.session, "lazy_postings_used": lazyHit,
 						"blocks": vfc07DescribeFixture(fx), "reference_series": len(rq.want)}
 					for k, v := range extra {
 						m[k] = v
